@@ -2,6 +2,7 @@ package main
 
 import (
 	"flag"
+	"runtime/pprof"
 	"fmt"
 	"os"
 	"sort"
@@ -44,7 +45,13 @@ func devMain(args []string) {
 	maxPaths := fs.Int("maxpaths", 0, "path cap")
 	solver := fs.String("solver", "z3", "solver")
 	verbose := fs.Bool("v", false, "verbose")
+	prof := fs.String("cpuprofile", "", "write cpu profile")
 	fs.Parse(args)
+	if *prof != "" {
+		f, _ := os.Create(*prof)
+		pprof.StartCPUProfile(f)
+		defer pprof.StopCPUProfile()
+	}
 	spec := overlaySpec{Harness: []string{*h}, Scale: map[string]string{}}
 	for _, s := range scales {
 		kv := strings.SplitN(s, "=", 2)
